@@ -82,6 +82,10 @@ CHECKS = {
          "bytes; E3 for the default (orjson) and stdlib json configurations on values assembled from pick-lists by choice variables "
          "(C encoders cannot be executed symbolically): encoded bytes parse with the standard json module to exactly marshal(v), all three "
          "entry points agree, decode(encode(v)) restores v.", "4/C02", "CrossHair symbolic execution of the codec wiring + exhaustive enumeration of pick-list values (choice variables), native replay"),
+ "C14": ("E3 for the five text carriers x catalogue x look-alike texts and the JSON / repr text of pick-list wire values (all choice "
+         "variables, enumerated exhaustively; JSON text is realised at the C decoder), load/strload against the standard JSON decoder and "
+         "ast.literal_eval over every string to length 3 of a 14-character alphabet; E1 for serdes.decode on symbolic bytes and load on "
+         "non-text inputs.", "4/C14", "CrossHair/z3 exhaustive enumeration of texts and carriers (choice variables) + symbolic execution of serdes.decode, native replay"),
 }
 NA = {
  "C17": "flat catalogue of CPython type objects compared with CPython's own issubclass/typing internals: neither side can be encoded for a solver and there is no value, shape, state or history to make symbolic (DESIGN.md section 7)",
